@@ -35,6 +35,7 @@ func main() {
 	cmacWorkload()
 	pkcs7Workload()
 	gppWorkload()
+	moreWorkload()
 	stateWorkload() // state.go: interleaved/concurrent objects, Reset histories, held outputs, input scribble
 	r.Finish()
 }
